@@ -272,6 +272,40 @@ def keyword_sweep():
                 yield "keyword-graphql", sdl, sdl, "graphql"
 
 
+RUNS = ([c * n for c in ('"', "'", "\\") for n in (1, 2, 3, 4, 5, 6, 7)]
+        + ['"""' + "'''", '\\"', '\\\\"""', 'x = """"\nimport os\ny = """"', "a\nb", "\r", "\x0c", " ", "{{ 7*7 }}", "{% raw %}", "#", "\t'",
+           "'''" + '"""' + "'''", 'end"', "'end", "end\\"])
+DIGITISH = ["⁰", "₂", "①", "½", "٣", "ⅷ", "²", "๓", "́", "‿", "‍", " ", "€", "\U0001f600", "ª",
+            "℘", "℮", "゛", "፩", "᧚", "·", "·", "１", "\U0001d7ce", "〇", "ↈ", "ꛦ", "༳", "↉"]
+
+
+def text_sweep():
+    """runs of quotes / backslashes of every short length and a few mixed texts in every textual slot at once, with the options
+    that turn descriptions into docstrings"""
+    for t in RUNS:
+        doc = {"title": "Root", "type": "object", "description": t,
+               "properties": {"a": {"type": "string", "description": t, "default": t, "title": "T " + t.replace("\n", " ")}, "e": {"type": "string", "enum": [t, "plain"]},
+                              "c": {"const": t}, "o": {"type": "object", "description": t, "properties": {"x": {"type": "integer", "description": t}}}},
+               "definitions": {"E": {"type": "string", "enum": ["v"], "description": t}}}
+        yield "text-sweep", doc, json.dumps(doc), "jsonschema"
+    for t in RUNS[:21:3] + RUNS[21:]:
+        clean = t.replace('"""', "'").replace("\\", "/")   # GraphQL strings have their own escapes: keep the text legal SDL
+        one_line = clean.replace('"', "").replace("\n", " ").replace("\r", " ").replace(" ", " ").replace("\x0c", " ")
+        sdl = f'"""\n{clean}\n"""\ntype A {{\n  "{one_line}"\n  a: Int\n}}\n"""\n{clean}\n"""\nenum E {{ X }}\ntype Query {{ q: A, e: E }}\n'
+        yield "text-sweep-graphql", sdl, sdl, "graphql"
+
+
+def name_sweep():
+    """one character of every kind that is digit-like, combining, connecting, invisible or otherwise special to identifiers, at the
+    start, inside and at the end of a property name, an enum value, a definition name and a title"""
+    for c in DIGITISH:
+        for name in ("x" + c, c + "x", "CO" + c + "y", c):
+            doc = {"title": "Root", "type": "object", "properties": {name: {"type": "integer"}, "e": {"type": "string", "enum": [name, "plain"]},
+                                                                     "r": {"$ref": "#/definitions/" + name}},
+                   "definitions": {name: {"type": "object", "title": "T" + name, "properties": {"k": {"type": "string"}}}}}
+            yield "name-sweep", doc, json.dumps(doc), "jsonschema"
+
+
 def correspond(ctx):
     from harness import reflect
     rng = ctx.rng("corr")
@@ -330,6 +364,13 @@ def falsify(ctx):
     sweep = list(extras_sweep())
     for doc, kind, opts in (sweep if ctx.thorough else rng.sample(sweep, 70)):
         go("extras", doc, json.dumps(doc), "jsonschema", False, True, kind, dict(opts), ())
+    for i, (family, payload, inp, ft) in enumerate(list(text_sweep())):
+        for kind in (KINDS if ctx.thorough else [KINDS[i % len(KINDS)], KINDS[(i + 2) % len(KINDS)]]):
+            for o in ({"use_schema_description": True, "use_field_description": True}, {"use_schema_description": True, "use_double_quotes": True}):
+                go(family, payload, inp, ft, False, family != "text-sweep-graphql", kind, dict(o), ())
+    for i, (family, payload, inp, ft) in enumerate(list(name_sweep())):
+        for kind in (KINDS if ctx.thorough else [KINDS[i % len(KINDS)]]):
+            go(family, payload, inp, ft, False, False, kind, {}, ())
     ksweep = list(keyword_sweep())
     for i, (family, payload, inp, ft) in enumerate(ksweep):
         for kind in (KINDS if ctx.thorough else [KINDS[i % len(KINDS)], KINDS[(i // 2 + 2) % len(KINDS)]]):
